@@ -501,6 +501,15 @@ def _last_of_blocks(interp, blocks, path):
 def do_slice(interp, obj, lo, hi, st, path):
     if st is not None and st != 1:
         raise Unsupported('slice step')
+    from .values import JUnionV as _JUs, RecV as _RecVs
+    if isinstance(obj, _JUs):
+        # any JSON value: decide its variant (one fork per variant), then slice the list / string; every other JSON
+        # value (object, number, bool, null) is not sliceable in CPython
+        obj = interp.narrow_json(obj, path)
+        if isinstance(obj, (_RecVs, DictV)):
+            interp.raise_builtin('TypeError', "unhashable type: 'slice'")
+        if obj is None or isinstance(obj, (bool, int, float)) or z3.is_expr(obj):
+            interp.raise_builtin('TypeError', 'object is not subscriptable')
     if isinstance(obj, str) and all(x is None or isinstance(x, int) for x in (lo, hi)):
         return obj[lo:hi]
     if isinstance(obj, (str, StrT)):
